@@ -91,6 +91,99 @@ def main(ctx):
     bad = serverlib.validate(ctx, lines, "C02")
     serverlib.report(ctx, bad, "C02")
     ev.extra["sessions"] = len(lines)
+    # client side of the framing: the reply streams the server produced, re-chunked into the real client.__next__
+    import os
+    import tempfile
+    from .. import tlc
+    streams = []
+    for ln in lines:
+        rs = [e["b"] for e in ln["ev"] if e["a"] == "send"]
+        if len(rs) >= 2 and len(streams) < (12 if ctx.quick else 60):
+            streams.append([x for b in rs for x in b])
+    cjobs = []
+    for st in streams:
+        L = len(st)
+        for sz in [[L], [1] * L] + [[k, L - k] for k in range(1, L, 1 if len(cjobs) < 2000 else 5)]:
+            cjobs.append((st, sz, None))
+        for t in range(0, L, 3):
+            cjobs.append((st, [t], t))                   # truncated stream then end-of-stream
+        for _ in range(5):
+            sizes, left = [], L
+            while left:
+                n = min(left, rng.choice([1, 2, 5, 24, 30, 100]))
+                sizes.append(n)
+                left -= n
+            cjobs.append((st, sizes, None))          # (no receive timeouts here: client.__next__ is only re-entered when input is readable)
+    cres = core.pmap(client_framing, cjobs, chunksize=16)
+    fd, path = tempfile.mkstemp(prefix="framing_", suffix=".ndjson")
+    with os.fdopen(fd, "w") as f:
+        for r in cres:
+            f.write(json.dumps({k: r[k] for k in ("stream", "got", "end")}, separators=(",", ":")) + "\n")
+    try:
+        r3 = tlc.run("FramingTrace", "FramingTrace.cfg", env={"TRACE_FILE": path}, timeout=1700)
+    finally:
+        os.unlink(path)
+    ev.tlc("client-framing", r3)
+    if r3.distinct != len(cres):
+        ctx.machinery.append("client framing: TLC evaluated %d of %d" % (r3.distinct, len(cres)))
+    for r in cres:
+        ev.case(key=("client", json.dumps(r["stream"][:60]), json.dumps(r["sizes"])), nontrivial=len(r["sizes"]) > 1)
+    for j in r3.json:
+        if "tid" in j:
+            r = cres[j["tid"] - 1]
+            ctx.violation("client_framing_%s" % j["why"], {"why": j["why"], "stream": r["stream"], "sizes": r["sizes"], "got": r["got"], "end": r["end"]},
+                          what="client framing: %d-octet reply stream in chunks %s: %s: %d messages, end=%s" % (len(r["stream"]), r["sizes"][:10], j["why"], len(r["got"]), r["end"]))
+    ev.extra["client_framing_runs"] = len(cres)
+
+
+_LISTEN = {}
+
+
+def client_framing(job):
+    """client side: feed client.__next__ a reply stream in chunks (scripted recvfrom), then end of stream"""
+    import socket
+    from cpppo.server.enip import client
+    stream, sizes, truncate = job
+    if "sock" not in _LISTEN:
+        ls = socket.socket()
+        ls.bind(("127.0.0.1", 0))
+        ls.listen(50)
+        _LISTEN["sock"] = ls
+    ls = _LISTEN["sock"]
+    data = bytes(bytearray(stream))[:truncate] if truncate is not None else bytes(bytearray(stream))
+    script, at = [], 0
+    for n in sizes:
+        if n is None:
+            script.append(None)
+        else:
+            script.append(data[at:at + n])
+            at += n
+    script = [c for c in script if c is None or len(c)] + ([data[at:]] if at < len(data) else []) + [b""]
+
+    class Scripted(client.client):
+        def recvfrom(self, timeout=None):
+            if not script:
+                return b"", self.addr
+            return script.pop(0), self.addr
+    cli = Scripted(host=ls.getsockname()[0], port=ls.getsockname()[1], timeout=2)
+    peer, _ = ls.accept()
+    got, end = [], "stop"
+    try:
+        with cli:
+            for _ in range(10 * len(data) + 50):
+                try:
+                    r = next(cli)
+                except StopIteration:
+                    break
+                if r is not None:
+                    got.append([r.enip.command, list(bytearray(r.enip.sender_context.input))])
+            else:
+                end = "error"
+    except Exception:
+        end = "error"
+    finally:
+        peer.close()
+    return {"stream": list(data), "got": got, "end": end, "sizes": sizes}
 
 
 def _cum(sz):
